@@ -107,11 +107,16 @@ def writer_obligations(ctx):
         ctx.add(enum_ob('C12.write._write_coordsitem', ok, clause='W(coords item) = symbol(type, index) ++ W_sub(subscript)', cex=dict(got=[str(flat(p.value)) for p in prs if p.kind == 'return'])))
         # _write_subscript: '' for 0, open ++ digits ++ close otherwise
         import z3
-        ok = True
-        for s_, want in ((0, []), (7, [('mark', 'subscript_open'), ('digits', 7), ('mark', 'subscript_close')])):
-            prs = run('_write_subscript', s_, abstract_sub=False)
-            ok = ok and len(prs) == 1 and flat(prs[0].value) == want
-        ctx.add(enum_ob('C12.write._write_subscript', ok, clause="W_sub(0) = ''; W_sub(n) = open ++ str(n) ++ close", cex={}))
+        sv = z3.Int('subscript')
+        prs = run('_write_subscript', sv, abstract_sub=False)
+        cl = []
+        for p_ in prs:
+            if p_.kind != 'return': cl.append(z3.Not(p_.pc)); continue
+            got = flat(p_.value)
+            if got == []: cl.append(z3.Implies(p_.pc, sv == 0))
+            elif len(got) == 3 and got[0] == ('mark', 'subscript_open') and got[2] == ('mark', 'subscript_close') and got[1][0] == 'digits' and got[1][1] is sv: cl.append(z3.Implies(p_.pc, sv != 0))
+            else: cl.append(z3.BoolVal(False))
+        ctx.add(Obligation('C12.write._write_subscript', z3.And(*cl) if cl else z3.BoolVal(False), hyps=[sv >= 0], meta=dict(clause="W_sub(0) = ''; W_sub(n) = open ++ str(n) ++ close for every n > 0")))
         # _write_quantified / _write_predicated / Polish _write_operated: prefix concatenation of the parts' renderings
         q, v, b = Part('q'), Part('v'), Part('body')
         prs = run('_write_quantified', Item('Q', Quantified, items=(q, v, b)))
